@@ -656,7 +656,11 @@ func (fr *Frame) applyContractVars(c *Contract, fn *ssa.Function, cc *ssa.CallCo
 		post.results = results
 	}
 	for _, en := range c.Ensures {
-		fr.assume(post.Bool(en.E))
+		if t, ok := post.tryBool(en.E); ok {
+			fr.assume(t)
+		} else {
+			fr.R.note("ensures '%s' of %s speaks about the callee's internal call log and is not used at call sites", en.Label, shortName(c.Name))
+		}
 	}
 	switch len(resVals) {
 	case 0:
@@ -793,4 +797,18 @@ func (c *EvalCtx) heapCompNames(spec string) []string {
 	}
 	c.heapCompArgs(spec, c.pkgPath)
 	return []string{fieldComp(ty, fname)}
+}
+
+// tryBool evaluates a clause; clauses that refer to call logs the current unit does not have are reported as unusable.
+func (c *EvalCtx) tryBool(e Expr) (t Term, ok bool) {
+	defer func() {
+		if x := recover(); x != nil {
+			if u, isU := x.(unsupportedErr); isU && strings.Contains(u.msg, "no such tracked call") {
+				ok = false
+				return
+			}
+			panic(x)
+		}
+	}()
+	return c.Bool(e), true
 }
